@@ -17,7 +17,7 @@ CLAIMED = {
     "C02": dict(
         text="PARTIAL. Solver-decided kernels the property's mechanisms bottom out in: (Kani) the value-count boundary (ValueRange predicates and From<range> impls, all usize values) and "
              "per-occurrence grouping in MatchedArg (short symbolic op sequences); (MIR->SMT) ArgMatcher::needs_more_vals == 'pending count < max' and Parser::verify_num_args accepting exactly "
-             "the counts inside the declared range. Says nothing about token classification, index assignment or delimiter splitting inside the parser loop (DESIGN 0).",
+             "the counts inside the declared range; react's delimiter loop contributes every piece of split(value, declared delimiter) unfiltered. Says nothing about token classification or index assignment (DESIGN 0).",
         note="Kernel-level only. Trusted: rustc/Kani translation, std as compiled by Kani, CBMC; for the MIR kernels every callee is a pure opaque value (listed in the evidence).",
         ref="2 C02", technique=MIX),
     "C03": dict(
@@ -51,7 +51,7 @@ CLAIMED = {
         text="PARTIAL. (Kani) action tables for every ArgAction and the default-action / value-count inference of Arg::_build for all num_args ranges, positional or not, 0-2 value names. "
              "(MIR->SMT) every return path of Parser::react classified by the action: Set/SetTrue/SetFalse report ArgumentConflict exactly when an earlier occurrence existed and neither args_override_self nor a "
              "self-override applies (else last wins), Append never removes earlier occurrences, Count is existing.saturating_add(1), SetTrue/SetFalse fill in true/false. "
-             "Override removal between different arguments (remove_overrides) and value storage order (push_arg_values) are out of reach.",
+             "remove_overrides: every overridden id and every collected overrider is removed (data flow through its loops). Value storage order (push_arg_values) is out of reach.",
         note="react's callees (ArgMatcher::remove, start_custom_arg, push_arg_values, ...) are opaque; its loops are cut at the back edge.",
         ref="2 C07", technique=MIX),
     "C08": dict(
